@@ -75,13 +75,14 @@ def run(ctx):
     nsets, per = (12, 100) if thorough else (1, 40)
     fails, known, disagreements = [], [], []
     incoherent = []
+    ninst = [0]
     ncases = 0
     nontrivial = 0
     feats = {}
     hdrs = header_defs()
     for s in range(nsets):
         defs = defgen.gen_set(rng, per, start_serial=s * per)
-        res = gendefs.run_codegen(hdrs + defs)
+        res = gendefs.run_codegen(hdrs + defs, seed=ctx.seed + s)
         if res.get("gen_error"):
             fails.append({"what": "the generator fails on a supported definition set: " + res["gen_error"][:400],
                           "definitions": [d["name"] for d in defs][:5]})
@@ -145,6 +146,37 @@ def run(ctx):
                 got = rest[0] if rest else ""
                 if st != "ok" or got != live:
                     disagreements.append({"definition": d["name"], "module": name, "model": (st + " " + got)[:400], "codegen": live[:400]})
+        # instances of the generated classes: usable, round-trip, and the bytes an independent reading prescribes
+        by_mod = {}
+        for d, t in zip(defs, toks):
+            pkg = gen_r[defs.index(d)].split(" ## ")[0].split()[1] if gen_r[defs.index(d)].startswith("ok") else None
+            by_mod[(pkg, d["type"])] = (d, t)
+        elines, emeta = [], []
+        for rec in res.get("instances", []):
+            _, _, pkg, ver, kind = rec["module"].split(".")
+            dt = by_mod.get((pkg, kind))
+            if dt is None:
+                continue
+            ninst[0] += 1
+            if "error" in rec:
+                fails.append({"what": f"generated class is not usable: {rec['error'][:200]}", "module": rec["module"], "definition": dt[0]})
+                continue
+            if not rec.get("roundtrip"):
+                fails.append({"what": "instance of a generated class does not round-trip", "module": rec["module"],
+                              "value": rec["value"][:1000], "definition": dt[0]})
+            n = len(dt[1].split())
+            elines.append(f"genenc {ver[1:]} {n} {dt[1]} {rec['value']}")
+            emeta.append((rec, dt[0]))
+        for (rec, d), r in zip(emeta, driver.run_parallel(elines)):
+            if not r.startswith("ok"):
+                disagreements.append({"definition": d["name"], "model": r[:200]})
+                continue
+            _, sp, im = r.split()
+            if sp != "none" and sp != (rec["bytes"] or "-"):
+                fails.append({"what": "instance of a generated class does not encode to the bytes the definition prescribes",
+                              "module": rec["module"], "value": rec["value"][:1000], "python": rec["bytes"][:400], "spec": sp[:400], "definition": d})
+            if im != (rec["bytes"] or "-"):
+                disagreements.append({"definition": d["name"], "module": rec["module"], "model": im[:300], "codegen+writer": rec["bytes"][:300]})
         # the generated index lists exactly the generated modules
         idx = res.get("index")
         if idx is None:
@@ -168,7 +200,7 @@ def run(ctx):
         "evaluations": ncases, "distinct_nontrivial": nontrivial,
         "rule": "case = (generated definition, version); the real generator is run on the set in a scratch tree, its "
                 "modules imported in a subprocess; non-trivial iff ≥ 3 fields and at least one of nullable/tagged/nested/default",
-        "generated_classes_not_coherent_in_model": len(incoherent), "definition_sets": nsets, "definitions": nsets * per, "feature_counts": feats,
+        "generated_classes_not_coherent_in_model": len(incoherent), "instances_encoded": ninst[0], "definition_sets": nsets, "definitions": nsets * per, "feature_counts": feats,
         "disagreements": len(disagreements), "property_failures_on_code": len(fails), "known_finding_cases": len(known),
         "samples": [],
     })
